@@ -3,6 +3,7 @@ package props
 import (
 	"go/ast"
 	"go/token"
+	"go/types"
 	"strings"
 
 	"pdfverif/internal/core"
@@ -163,5 +164,105 @@ func ruleC19Structure(c *core.Ctx) {
 			o.Require(isAssign, "the result of %s is not kept", cv.Key)
 		}
 		o.Require(n >= 2, "expected the final Flush and the sink's Close in Writer.Close")
+	})
+}
+
+// ruleDeferredErrorReachesCaller (C19-R7): a deferred closure that stores an
+// error (of a Close, Seek, Flush ...) into a variable of the enclosing
+// function reports it to the caller only if that variable is a named result:
+// the return values have already been evaluated when the deferred function
+// runs, and a store into an ordinary local is lost.  Checked for every
+// deferred closure in package pdf and the filter packages.
+func ruleDeferredErrorReachesCaller(c *core.Ctx) {
+	nDefers := 0
+	type finding struct {
+		fn   *core.Func
+		node ast.Node
+		name string
+	}
+	var bad []finding
+	for _, pkg := range c.Prog.RepoPkgs() {
+		sp := core.ShortPkg(pkg.PkgPath)
+		if !(sp == "pdf" || strings.HasPrefix(sp, "pdf/internal/filter")) || strings.HasSuffix(sp, "/generate") {
+			continue
+		}
+		for _, fn := range c.Prog.Funcs(pkg) {
+			info := fn.Info()
+			// enclosing function nodes: the declaration and every literal
+			type scope struct {
+				typ  *ast.FuncType
+				body *ast.BlockStmt
+			}
+			scopes := []scope{{fn.Decl.Type, fn.Decl.Body}}
+			ast.Inspect(fn.Decl.Body, func(n ast.Node) bool {
+				if fl, ok := n.(*ast.FuncLit); ok {
+					scopes = append(scopes, scope{fl.Type, fl.Body})
+				}
+				return true
+			})
+			for _, sc := range scopes {
+				results := map[types.Object]bool{}
+				if sc.typ.Results != nil {
+					for _, f := range sc.typ.Results.List {
+						for _, nm := range f.Names {
+							results[info.Defs[nm]] = true
+						}
+					}
+				}
+				// defers directly in this function (not in nested literals)
+				var walk func(n ast.Node) bool
+				walk = func(n ast.Node) bool {
+					if fl, ok := n.(*ast.FuncLit); ok && fl.Body != sc.body {
+						return false
+					}
+					ds, ok := n.(*ast.DeferStmt)
+					if !ok {
+						return true
+					}
+					dl, ok := ds.Call.Fun.(*ast.FuncLit)
+					if !ok {
+						return true
+					}
+					nDefers++
+					ast.Inspect(dl.Body, func(m ast.Node) bool {
+						as, ok := m.(*ast.AssignStmt)
+						if !ok || as.Tok != token.ASSIGN {
+							return true
+						}
+						for _, l := range as.Lhs {
+							id, ok := ast.Unparen(l).(*ast.Ident)
+							if !ok {
+								continue
+							}
+							v, ok := info.ObjectOf(id).(*types.Var)
+							if !ok || !core.IsErrorType(v.Type()) {
+								continue
+							}
+							// captured from the enclosing function (declared outside the deferred literal)
+							if v.Pos() >= dl.Pos() && v.Pos() <= dl.End() {
+								continue
+							}
+							if v.Pos() < sc.body.Pos() && !results[v] && !(v.Pos() >= sc.typ.Pos() && v.Pos() <= sc.typ.End()) {
+								continue // belongs to an outer function: that function's own check covers it
+							}
+							if !results[v] {
+								bad = append(bad, finding{fn, as, v.Name()})
+							}
+						}
+						return true
+					})
+					return true
+				}
+				ast.Inspect(sc.body, walk)
+			}
+		}
+	}
+	c.Check("C19-R7", "deferred-error-stores", "every error stored by a deferred closure goes into a named result of the function that defers it", func(o *core.Ob) {
+		o.Count(nDefers)
+		o.Fact("%d deferred closures inspected", nDefers)
+		o.Require(nDefers >= 8, "only %d deferred closures found", nDefers)
+		for _, b := range bad {
+			o.FailAt(b.fn.Site(b.node, ""), "%s: the deferred function stores an error in %s, which is not a named result of the enclosing function: the error never reaches the caller", c.Prog.Pos(b.node.Pos()), b.name)
+		}
 	})
 }
